@@ -125,10 +125,17 @@ type Spec struct {
 	// <Prefix>Connection / <Prefix>Edge types, which carry the field's features) stays visible: the
 	// types are still built and registered, the field hangs nowhere. Only eraseSpec produces them.
 	Orphans []FieldSpec `json:"orphans,omitempty"`
+	// Staged says in which order the library objects are put together (the finished definition is the
+	// same): 0 = every type literal carries its RequiredFeatures before anything refers to it; 1 = the
+	// named types are declared without features, all fields / arguments / list and non-null wrappers are
+	// built, and the RequiredFeatures are assigned last; 2 = the definition is built without type
+	// features, cloned (SchemaDefinition.Clone, what apifu hands its PreprocessGraphQLSchemaDefinition
+	// hook), and the features are assigned on the clone.
+	Staged int `json:"staged,omitempty"`
 }
 
 func (s *Spec) clone() *Spec {
-	out := &Spec{Query: s.Query, Mutation: s.Mutation, Subscription: s.Subscription}
+	out := &Spec{Query: s.Query, Mutation: s.Mutation, Subscription: s.Subscription, Staged: s.Staged}
 	for _, d := range s.Directives {
 		out.Directives = append(out.Directives, DirSpec{Name: d.Name, Args: append([]ArgSpec(nil), d.Args...), Defaults: append([]string(nil), d.Defaults...), Filter: d.Filter})
 	}
